@@ -12,7 +12,7 @@ from ..routes import Absent, make_entry
 from ..runner import short
 
 ID = "C01"
-N = {"quick": 3200, "thorough": 120000}
+N = {"quick": 48000, "thorough": 1600000}
 TIME_BUDGET = {"quick": 40, "thorough": 600}
 MIN_NONTRIVIAL = {"quick": 300, "thorough": 3000}
 RULE = ("cases = random TypeSpec (origins x constraint sets x generics depth<=3 x | ^ & ~ Optional Literal x data classes) "
@@ -129,11 +129,10 @@ def run_case(case, ctx):
 
 def classify(code, trail, opts):
     """mechanism key: failing oracle clause + the declaration-shape class it sits in"""
-    if code == "not-instance:Iterator":
+    if "not-instance:Iterator" in code:
         return "C01/iterator-origin-returns-non-iterator"
-    inner = trail[1:] if trail and trail[0] in ("gen:Sequence", "gen:Iterable") else trail
-    for t in ("gen:Sequence", "gen:Iterable", "gen:Iterator"):
-        if t in trail and trail[-1] != t:
+    for t in ("gen:Sequence", "gen:Iterable"):
+        if t in trail[:-1] or (t in trail and code.startswith("no-arg")):
             return "C01/elements-under-abstract-origin-not-converted/" + t[4:]
     if "and" in trail and opts.get("collect_errors"):
         return "C01/and-combinator+collect_errors/" + code.split(":")[0]
